@@ -18,6 +18,9 @@ pub enum Case {
     /// a union with a settlement calendar created on one fresh thread and used on another fresh thread, on which a
     /// different union (other settlement closures) was created at the same point of that thread's life and used first
     CrossThread { warmup: usize },
+    /// a mask-only calendar used around the start of the proleptic calendar (years -1, 0 and 1), where the day number
+    /// counted from the common era changes sign
+    Ancient { bmask: u8 },
     /// named calendar; start dates from..=to (day numbers), day counts: all i8 or the reduced menu
     Named { name: String, from: i64, to: i64, all_counts: bool },
 }
@@ -211,6 +214,27 @@ fn check_cal<C: DateRoll>(cal: &C, bm: &Bitmap, d_lo: i64, d_hi: i64, ns: &[i8],
                     }
                     Err(_) => acc.violate(&format!("cal_date_range/{}/unexpected-error", tag), idx, cj(), json!({"start": fmt_day(z), "end": fmt_day(e)}), json!("Err")),
                 }
+                // start and end carrying a time of day (06:00 / 18:00 in both assignments): the business-date range is
+                // still exactly the business days of the calendar-date range - empty when the end precedes the start,
+                // by however little
+                if e <= z + 2 {
+                    for (hs, he) in [(18u64, 6u64), (6, 18)] {
+                        let (ds, de) = (d + chrono::Duration::hours(hs as i64), to_ndt(e) + chrono::Duration::hours(he as i64));
+                        acc.eval();
+                        if let (Ok(b), Ok(c)) = (cal.bus_date_range(&ds, &de), cal.cal_date_range(&ds, &de)) {
+                            let want: Vec<_> = c.into_iter().filter(|x| cal.is_bus_day(x)).collect();
+                            if b != want {
+                                acc.violate(
+                                    &format!("bus_date_range/time-of-day/{}", tag),
+                                    idx,
+                                    cj(),
+                                    json!({"start": format!("{}", ds), "end": format!("{}", de), "want": want.iter().map(|x| format!("{}", x)).collect::<Vec<_>>()}),
+                                    json!(b.iter().map(|x| format!("{}", x)).collect::<Vec<_>>()),
+                                );
+                            }
+                        }
+                    }
+                }
                 let got = cal.bus_date_range(&d, &to_ndt(e));
                 let ends_ok = is_bus && bm.is_bus(e);
                 match (ends_ok, got) {
@@ -364,6 +388,16 @@ pub fn check(case: &Case, idx: u64, acc: &mut Acc) {
             }
             acc.sample(|| serde_json::to_value(case).unwrap());
         }
+        Case::Ancient { bmask } => {
+            let z1 = days_from_civil(1, 1, 1);
+            let c = Cal::new(vec![], mask_vec(*bmask));
+            let bm = Bitmap::from_fn(z1 - 1500, z1 + 1500, |z| (*bmask & (1 << weekday(z)) == 0, true));
+            let ns = counts(false);
+            acc.nontrivial();
+            check_cal(&c, &bm, z1 - 380, z1 - 355, &ns, false, "Cal/ancient", case, idx, acc);
+            check_cal(&c, &bm, z1 - 20, z1 + 20, &ns, true, "Cal/ancient", case, idx, acc);
+            acc.sample(|| serde_json::to_value(case).unwrap());
+        }
         Case::HugeRun { r } => {
             let z0 = days_from_civil(1975, 1, 2);
             let c = Cal::new((0..*r).map(|i| to_ndt(z0 + i)).collect(), vec![5, 6]);
@@ -454,6 +488,9 @@ pub fn cases(tier: Tier) -> Vec<Case> {
         }
     }
     out.push(Case::HugeRun { r: 65_600 });
+    for bmask in [0b1100000u8, 0b0110000, 0b0011111, 0b1000001] {
+        out.push(Case::Ancient { bmask });
+    }
     for warmup in 0..4usize {
         out.push(Case::CrossThread { warmup });
     }
@@ -509,7 +546,7 @@ pub fn run(ctx: &Ctx, replay_file: Option<String>) -> ! {
          window, on top of periodic week masks for the business calendar (none, Sat-Sun, Fri-Sat, Mon-Fri closed) and \
          the settlement calendar (absent, Sat-Sun, Sun+Mon, none); EVERY i8 day count, both settlement flags, every \
          start date of the window +-1: add_bus_days (value, error on a non-business start, inverse law), lag, \
-         add_days under all 5 modifiers, bus_date_range and cal_date_range for every (start, end) pair; every fifth case also as a union whose members (and settlement calendars) each close only some of the weekdays; the holiday vector is handed over in date order, reversed, interleaved or with every date twice (by case index). (1b) long runs of 12, 35, 64, 367 and 430 (and one of 65 600) consecutive closures at every weekday alignment, every i8 count from the days \
+         add_days under all 5 modifiers, bus_date_range and cal_date_range for every (start, end) pair (near pairs also with times of day on both ends, in both assignments); every fifth case also as a union whose members (and settlement calendars) each close only some of the weekdays; the holiday vector is handed over in date order, reversed, interleaved or with every date twice (by case index). (1b) long runs of 12, 35, 64, 367 and 430 (and one of 65 600) consecutive closures; four mask-only calendars around 0001-01-01 (years -1 .. 1) at every weekday alignment, every i8 count from the days \
          around both ends of the run. (1c) a union built on one fresh thread and used on another on which a different union was built and used first. (2) named calendars (those with settlement calendars also wrapped in the CalType container): every date \
          of several years x every i8; every built-in calendar over every date 1970-2200 x a reduced count menu \
          (|n|<=10 and +-20,63,64,100,126,127,-128). Oracle: index arithmetic on the sorted list of the calendar's own \
